@@ -61,6 +61,7 @@ type c12Seen struct {
 	server   wire.Parameters
 	user     string
 	earlier  wire.Parameters // the map handed to the preceding GlobalParameters option
+	hooks    int             // invocations of the CloseConn / TerminateConn callbacks
 }
 
 func c12Server(cfg c12Config, seen *c12Seen) (*harness.One, wire.Parameters, error) {
@@ -86,6 +87,8 @@ func c12Server(cfg c12Config, seen *c12Seen) (*harness.One, wire.Parameters, err
 		seen.sessions++
 		return ctx, nil
 	}))
+	opts = append(opts, wire.CloseConn(func(ctx context.Context) error { seen.hooks++; return nil }),
+		wire.TerminateConn(func(ctx context.Context) error { seen.hooks++; return nil }))
 	if cfg.Version != "" {
 		opts = append(opts, wire.Version(cfg.Version))
 	}
@@ -351,8 +354,11 @@ func c12RunBad(cfg c12Config, b c12Bad) explore.Result {
 	if st != memnet.Closed {
 		res.Fail("not-closed", fmt.Sprintf("%s: connection is %s, expected it to be closed", b.Name, st))
 	}
-	if seen.calls != 0 || seen.sessions != 0 {
-		res.Fail("callback-ran", fmt.Sprintf("%s: callbacks ran (handler %d, session %d)", b.Name, seen.calls, seen.sessions))
+	if !b.Silent {
+		seen.hooks = 0 // (a close hook for a connection that sent a malformed start-up packet is not excluded by the statement; for a CancelRequest it is)
+	}
+	if seen.calls != 0 || seen.sessions != 0 || seen.hooks != 0 {
+		res.Fail("callback-ran", fmt.Sprintf("%s: callbacks ran (handler %d, session middleware %d, close / terminate hooks %d)", b.Name, seen.calls, seen.sessions, seen.hooks))
 	}
 	if b.Silent && len(out) != 0 {
 		res.Fail("cancel-answered", fmt.Sprintf("%s: a CancelRequest must not be answered, got % x", b.Name, out))
